@@ -22,10 +22,12 @@ type C05Cell struct {
 	IP       string `json:"ip"`
 }
 
-var c05AdminLists = [][]string{nil, {"10.0.0.10"}, {"10.0.0.10", "192.168.1.7", "172.16.0.3"}}
+var c05AdminLists = [][]string{nil, {"10.0.0.10"}, {"10.0.0.10", "192.168.1.7", "172.16.0.3"},
+	// Lists with addresses of the other family: sources of either family that are not listed remain unlisted.
+	{"::1"}, {"10.0.0.10", "2001:db8::1", "fe80::2"}}
 
 func c05IPs(admin int) map[string]string {
-	m := map[string]string{"absent": "", "unlisted": "10.9.9.9"}
+	m := map[string]string{"absent": "", "unlisted": "10.9.9.9", "unlisted-v6": "2001:db8::bad:1"}
 	l := c05AdminLists[admin]
 	if len(l) > 0 {
 		m["listed-first"] = l[0]
